@@ -21,6 +21,18 @@ def window_of(rq):
 _FULL = {}
 
 
+def _pinned_ids(cfg):
+    global _PINNED
+    try:
+        d = _PINNED
+    except NameError:
+        import json
+        import os
+        d = _PINNED = json.load(open(os.path.join(os.path.dirname(os.path.dirname(__file__)), 'data', 'healthy_ids.json')))
+    k = d['index'].get(f"{cfg['family']}|{cfg['tag']}|{cfg['power']}|{cfg['battery_mode']}")
+    return None if k is None else d['sets'][k]
+
+
 def travelled_in(cfg, transport='udp'):
     """{sensor id: (lo, hi) of the request window its registers travelled in} for the SAME model, rated power and battery
     on an inverter that refuses nothing (second poll: the object has settled)."""
@@ -85,6 +97,14 @@ def run_config(cfg, transport='udp', calls=3):
             if gone:
                 vio.append(('supported-block-present', f'call {i + 1}: {len(gone)} ids of blocks the inverter serves are missing, e.g. {gone[:3]} '
                                                        f'(refused: {list(cfg["refused"])})'))
+        if i == calls - 1 and not cfg['refused'] and set(cfg) <= {'family', 'tag', 'power', 'refused', 'battery_mode'} and transport == 'udp':
+            # an inverter that refuses nothing: the settled object reports every id documented for this model, rated power
+            # and battery mode (pinned from the tree at the pinned commit, mc/data/healthy_ids.json)
+            want = _pinned_ids(cfg)
+            if want is not None and not set(want) <= keys:
+                gone = sorted(set(want) - keys)
+                vio.append(('supported-block-present', f'call {i + 1}: an inverter that refuses nothing, {len(gone)} ids documented for '
+                                                       f'{cfg["tag"]} / {cfg["power"]} W are missing, e.g. {gone[:3]}'))
         ids = {s.id_ for s in world.listed(inv)}
         if keys != ids:
             extra = sorted(keys - ids)[:4]
@@ -337,6 +357,12 @@ def all_cases(tier, seed):
     for c in dt_configs(tier, seed):
         cases.append((c, 'udp'))
         cases.append((c, 'tcp'))
+    # rated powers around the 16-bit sign boundary and at the top of the register's range, on inverters that refuse nothing
+    from ..configs import ET_TAGS
+    for tag in ET_TAGS:
+        for p in (32767, 32768, 40000, 65535):
+            for bm in (0, 2):
+                cases.append((dict(family='ET', tag=tag, power=p, refused=(), battery_mode=bm), 'udp'))
     for c in es_configs(tier, seed):
         cases.append((c, 'udp'))
     # inverters that refuse one block READ as such (by its start and length) and serve the other reads of the same range:
